@@ -70,6 +70,7 @@ class FuncInfo:
         self.cls = cls
         self.parent = parent
         self.nested = {}
+        self.prog = None
 
     @property
     def path(self):
@@ -258,6 +259,7 @@ class Program:
 
     def _index_func(self, m, node, qname, cls, parent, table):
         f = FuncInfo(qname, node, m, cls, parent)
+        f.prog = self
         table[node.name] = f
         self.funcs[qname] = f
         for sub in walk_local(node, include_root=False):
